@@ -517,7 +517,7 @@ def main(argv=None):
 
     wall = time.time() - t0
     nontriv = len(total.nt)
-    starved = not violations and not total.harness_errors and (
+    starved = not violations and not total.harness_errors and not args.layer and (
         nontriv < prop.min_nontrivial or any(
             total.per_layer.get(l.name, {}).get("nontrivial", 0) < l.min_nontrivial for l in layers if not args.layer))
     # 5. evidence
